@@ -154,7 +154,7 @@ def run(ctx):
         shutil.rmtree(sub.work, ignore_errors=True)
         if allow:
             model_viol[cfg] = res
-    ctx.extra["model_invariants_hold"] = ["%s: AgreePlainPlain AgreeExpelWithinF%s" % (c, "" if "closed" in c else " ClosedMatchesExplicit")
+    ctx.extra["model_invariants_hold"] = ["%s: AgreePlainPlain AgreeExpelWithinF%s" % (c, "" if "closed" in c else " ClosedMatchesExplicit OrbitRepresents OrbitOverlapMinimal")
                                           for c, a in model_cfgs if not a]
 
     # ---- binding A: real verdicts
@@ -242,8 +242,15 @@ def run(ctx):
         sb = sum(1 << i for i, s in enumerate(sets) if '"B"' in s)
         hit = any(pn == n and (a | sa) == sa and (b | sb) == sb for (pn, a, b) in real_pairs)
         rec = {"cfg": cfg, "signed": "<<%s>>" % " ".join(sgtxt.split())}
+        pc = lambda x: bin(x).count("1")
+        # up to a renaming of the nodes (orbit tables): an injection of the real pair's voters into the model's signers exists
+        # iff the four cardinalities fit
+        renamed = any(pn == n and pc(a) <= pc(sa) and pc(b) <= pc(sb) and pc(a & b) <= pc(sa & sb) and pc(a | b) <= pc(sa | sb)
+                      for (pn, a, b) in real_pairs)
         if hit:
             ctx.extra.setdefault("model_counterexamples_reproduced_on_real_validators", []).append(rec)
+        elif renamed:
+            ctx.extra.setdefault("model_counterexamples_reproduced_on_real_validators(up to a renaming of the nodes)", []).append(rec)
         elif n <= (4 if quick else 5):
             ctx.extra.setdefault("model_only_counterexamples", []).append(rec)
         else:
